@@ -271,7 +271,7 @@ def run(tier, seed):
     if tier == "quick":
         inner += [(4, 2, 1, 0), (5, 1, 0, 0)]
     else:
-        inner += [(c, n, s, 0) for c in (4, 5, 6, 7, 8) for (n, s) in ((1, 0), (2, 1))]
+        inner += [(c, n, s, 0) for c in (4, 5, 6) for (n, s) in ((1, 0), (2, 1))]
     part = [(c,) for c in (4, 5, 6, 7, 8, 9, 10, 11, 12, 13, 14, 15, 16, 20, 21, 22)]
     me = []
     for n in ([0, 1, 2, 3, 5, 8] if tier == "quick" else [0, 1, 2, 3, 4, 5, 6, 7, 8, 9, 13, 33]):
